@@ -205,9 +205,17 @@ Proof.
   apply fold_unmark1_inv. destruct H as [Hd Hx]. split; auto.
 Qed.
 
+Lemma expire_inv s hs : inv s -> inv (expire s hs).
+Proof.
+  intros [Hd Hx]. split; unfold expire, hashes, exec_keys in *; simpl.
+  - apply NoDup_map_filter. exact Hd.
+  - intros h Hh. apply in_map_filter in Hh as [x [Hxin [E _]]]. subst.
+    apply Hx. apply in_map. exact Hxin.
+Qed.
+
 Lemma step_inv lim s o : inv s -> inv (step lim s o).
 Proof.
-  destruct o; simpl; intro H; auto using add_inv, mark_inv, unmark_inv.
+  destruct o; simpl; intro H; auto using add_inv, mark_inv, unmark_inv, expire_inv.
 Qed.
 
 Lemma run_inv lim ops s : inv s -> inv (run lim s ops).
@@ -262,7 +270,7 @@ Qed.
 Lemma step_keeps_executed lim s o h :
   ~ unmarks o h -> In h (exec_keys s) -> In h (exec_keys (step lim s o)).
 Proof.
-  destruct o as [t|txs ev|txs ev| |h']; simpl; intros Hn H; auto.
+  destruct o as [t|txs ev|txs ev| |h'|hs]; simpl; intros Hn H; auto.
   - unfold add. destruct (existed s (thash t)); simpl; auto.
     unfold push. destruct (_ <? _); auto.
   - unfold mark_executed, exec_keys. simpl. apply fold_put_keys. right. exact H.
@@ -627,6 +635,183 @@ Lemma race_witness :
 Proof.
   vm_compute. repeat split; auto.
   intros [_ H]. apply (H 5); auto.
+Qed.
+
+(* ---------- the locked fine-grained semantics: every schedule is linearizable ---------- *)
+Lemma run_snoc lim s ops o : run lim s (ops ++ [o]) = step lim (run lim s ops) o.
+Proof. unfold run. rewrite fold_left_app. reflexivity. Qed.
+
+Lemma existed_expire s hs h : existed s h = false -> existed (expire s hs) h = false.
+Proof.
+  intro H. apply existed_false in H as [Hr He]. unfold existed. apply orb_false_iff. split.
+  - apply memN_false. intro Hi. apply Hr. unfold expire in Hi. simpl in Hi.
+    apply in_map_filter in Hi as [x [Hx [E _]]]. subst. apply in_map. exact Hx.
+  - apply memN_false. exact He.
+Qed.
+
+Lemma push_is_add lim s t : existed s (thash t) = false -> push lim s t = fst (add lim s t).
+Proof. intro H. unfold add. rewrite H. reflexivity. Qed.
+
+(* the sub-steps compose to the whole methods *)
+Lemma mark_split s txs ev : mark_remove (mark_write s txs ev) txs ev = mark_executed s txs ev.
+Proof. reflexivity. Qed.
+
+Lemma filter_all {A} (l : list A) : filter (fun _ => true) l = l.
+Proof. induction l; simpl; congruence. Qed.
+
+Lemma unmark_single lim s t : unmark lim s [t] [] = unmark1 lim s t.
+Proof.
+  unfold unmark. simpl. destruct s as [r e v]. simpl. rewrite filter_all. reflexivity.
+Qed.
+
+Lemma fold_unmark_single lim r : forall p,
+  fold_left (fun s0 t0 => unmark lim s0 [t0] []) r p = fold_left (unmark1 lim) r p.
+Proof. induction r as [|x r IH]; intro p; cbn [fold_left]; [reflexivity|]. rewrite unmark_single. apply IH. Qed.
+
+Lemma unmark_split lim s t r ev :
+  unmark lim s (t :: r) ev = fold_left (fun s0 t0 => unmark lim s0 [t0] []) r (unmark lim s [t] ev).
+Proof. rewrite fold_unmark_single. reflexivity. Qed.
+
+(* invariant: the pool is a sequentially reachable state, up to the record-write half of a MarkExecuted
+   in flight *)
+Definition lJ (lim : N) (s : lstate) : Prop :=
+  exists ops0,
+  match holder s with
+  | None => lpool s = run lim empty ops0
+  | Some (_, KAdd t b) =>
+    lpool s = run lim empty ops0 /\ (b = false -> existed (run lim empty ops0) (thash t) = false)
+  | Some (_, KMark txs ev) => lpool s = mark_write (run lim empty ops0) txs ev
+  | Some (_, KUnmark _) => lpool s = run lim empty ops0
+  end.
+
+Lemma lstep_J lim s o : lJ lim s -> lJ lim (lstep lim s o).
+Proof.
+  intros [ops0 H]. destruct s as [p h]. unfold lJ in *. simpl in H.
+  destruct o as [tid t|tid|tid txs ev|tid|tid txs ev|tid|o];
+  destruct h as [[tid' [t' b'|txs' ev'|rest']]|]; simpl;
+  try (exists ops0; exact H);
+  try (destruct txs as [|t0 rest0]; exists ops0; exact H).
+  - (* LCheck, free *)
+    exists ops0. split; [exact H|]. rewrite <- H. auto.
+  - (* LPush, KAdd *)
+    destruct (tid =? tid'); [|exists ops0; exact H]. destruct H as [H Hb]. simpl. destruct b'.
+    + exists ops0. exact H.
+    + exists (ops0 ++ [OAdd t']). rewrite run_snoc. simpl. rewrite H. apply push_is_add. auto.
+  - (* LMarkW, free *)
+    exists ops0. rewrite H. reflexivity.
+  - (* LMarkR, KMark *)
+    destruct (tid =? tid'); [|exists ops0; exact H]. simpl.
+    exists (ops0 ++ [OMark txs' ev']). rewrite run_snoc. simpl. rewrite H. reflexivity.
+  - (* LUnmarkB, free *)
+    destruct txs as [|t rest]; [exists ops0; exact H|]. simpl.
+    exists (ops0 ++ [OUnmark [t] ev]). rewrite run_snoc. simpl step. rewrite <- H.
+    destruct rest; reflexivity.
+  - (* LUnmarkN, KUnmark *)
+    destruct rest' as [|t rest]; [exists ops0; exact H|].
+    destruct (tid =? tid'); [|exists ops0; exact H]. simpl.
+    exists (ops0 ++ [OUnmark [t] []]). rewrite run_snoc. simpl step. rewrite <- H.
+    destruct rest; reflexivity.
+  - (* LOp, KAdd held *)
+    destruct (needs_lock o) eqn:En; [exists ops0; exact H|]. simpl. destruct H as [H Hb].
+    exists (ops0 ++ [o]). rewrite run_snoc, <- H. split; [reflexivity|].
+    intro Eb. specialize (Hb Eb). rewrite <- H in Hb.
+    destruct o; try discriminate; simpl; auto. apply existed_expire. exact Hb.
+  - (* LOp, KMark held *)
+    destruct (needs_lock o) eqn:En; [exists ops0; exact H|]. simpl.
+    exists (ops0 ++ [o]). rewrite run_snoc, H.
+    destruct o; try discriminate; reflexivity.
+  - (* LOp, KUnmark held *)
+    destruct (needs_lock o) eqn:En; [exists ops0; exact H|]. simpl.
+    exists (ops0 ++ [o]). rewrite run_snoc, H. reflexivity.
+  - (* LOp, free *)
+    exists (ops0 ++ [o]). rewrite run_snoc, H. reflexivity.
+Qed.
+
+Lemma lrun_J lim sched : forall s, lJ lim s -> lJ lim (lrun lim s sched).
+Proof.
+  induction sched as [|o sched IH]; intros s H; simpl; auto. apply IH. apply lstep_J. exact H.
+Qed.
+
+Lemma locked_schedules lim sched :
+  let s := lrun lim linit sched in
+  (mark_idle s -> (exists ops, lpool s = run lim empty ops) /\ inv (lpool s)) /\
+  NoDup (hashes (received (lpool s))) /\
+  (forall h, In h (hashes (received (lpool s))) -> In h (exec_keys (lpool s)) ->
+     exists tid txs ev, holder s = Some (tid, KMark txs ev) /\ In h (hashes txs)).
+Proof.
+  cbv zeta. assert (HJ : lJ lim (lrun lim linit sched)).
+  { apply lrun_J. exists []. reflexivity. }
+  destruct HJ as [ops0 H]. pose proof (run_inv lim ops0 empty inv_empty) as Hi.
+  unfold mark_idle. destruct (lrun lim linit sched) as [p h]. simpl in *.
+  assert (Hseq : p = run lim empty ops0 ->
+                 ((exists ops, p = run lim empty ops) /\ inv p) /\ NoDup (hashes (received p)) /\
+                 (forall x, In x (hashes (received p)) -> In x (exec_keys p) -> False)).
+  { intro E. rewrite E. destruct Hi as [Hd Hx].
+    split; [split; [eexists; reflexivity | split; assumption]|].
+    split; [exact Hd|]. intros x Hp He. exact (Hx x Hp He). }
+  destruct h as [[tid [t b|txs ev|rest]]|].
+  - destruct H as [H _]. destruct (Hseq H) as [A [B C]]. split; [intros _; exact A|]. split; [exact B|].
+    intros x Hp He. destruct (C x Hp He).
+  - rewrite H. split; [intros []|]. destruct Hi as [Hd Hx]. split; [exact Hd|].
+    intros x Hp He. exists tid, txs, ev. split; [reflexivity|].
+    unfold mark_write, exec_keys in He. simpl in He. apply fold_put_keys in He as [He|He]; auto.
+    destruct (Hx x Hp He).
+  - destruct (Hseq H) as [A [B C]]. split; [intros _; exact A|]. split; [exact B|].
+    intros x Hp He. destruct (C x Hp He).
+  - destruct (Hseq H) as [A [B C]]. split; [intros _; exact A|]. split; [exact B|].
+    intros x Hp He. destruct (C x Hp He).
+Qed.
+
+(* the lock turns check ; mark ; push into check ; (mark waits) ; push ; mark *)
+Lemma race_schedule_locked :
+  let t := mkTx 5 1 0 0 in
+  let s := lpool (lrun 50000 linit [LCheck 1 t; LMarkW 2 [t] []; LMarkR 2; LPush 1; LMarkW 2 [t] []; LMarkR 2]) in
+  received s = [] /\ In (thash t) (exec_keys s).
+Proof. vm_compute. auto. Qed.
+
+(* ---------- background expiry: the timed pool refines the untimed one ---------- *)
+Lemma tstep_erase lim s o : tp (tstep lim s o) = step lim (tp s) (erase1 s o).
+Proof. destruct o; reflexivity. Qed.
+
+Lemma timed_refines lim tops : forall s, exists ops, tp (trun lim s tops) = run lim (tp s) ops.
+Proof.
+  induction tops as [|o tops IH]; intro s; simpl.
+  - exists []. reflexivity.
+  - destruct (IH (tstep lim s o)) as [ops H]. exists (erase1 s o :: ops).
+    rewrite H. rewrite tstep_erase. reflexivity.
+Qed.
+
+Lemma timed_inv lim tops : inv (tp (trun lim (mkT empty []) tops)).
+Proof.
+  destruct (timed_refines lim tops (mkT empty [])) as [ops H]. rewrite H. apply run_inv. apply inv_empty.
+Qed.
+
+(* a pending transaction is never expired before its fifth tick, and is gone after five ticks without
+   any other operation *)
+Lemma expiry_example :
+  let a := mkTx 11 1 0 0 in let b := mkTx 12 1 1 0 in
+  let s4 := trun 10 (mkT empty []) [TOp (OAdd a); TTick; TOp (OAdd b); TTick; TTick; TTick] in
+  let s5 := tstep 10 s4 TTick in
+  received (tp s4) = [a; b] /\ received (tp s5) = [b].
+Proof. vm_compute. auto. Qed.
+
+Lemma pack_any_schedule lim sched f st cap :
+  p018 f = true -> p023 f || p021 f = true ->
+  let s := lrun lim linit sched in
+  mark_idle s ->
+  let p := pack f st cap (lpool s) in
+  NoDup (hashes p) /\ N.of_nat (length p) <= cap /\ incl p (received (lpool s)) /\
+  (forall t, In t p -> ~ In (thash t) (exec_keys (lpool s))) /\
+  StronglySorted asc_rel p /\ not_ahead st p.
+Proof.
+  intros H18 Hf s Hidle. apply pack_ok; auto.
+  apply (proj1 (locked_schedules lim sched)). exact Hidle.
+Qed.
+
+Lemma timed_refines_empty lim tops :
+  let s := tp (trun lim (mkT empty []) tops) in (exists ops, s = run lim empty ops) /\ inv s.
+Proof.
+  cbv zeta. split; [apply (timed_refines lim tops (mkT empty [])) | apply timed_inv].
 Qed.
 
 (* ---------- packaged statements used by Props.v ---------- *)
